@@ -1166,6 +1166,21 @@ def parse_int_chars(m, items, lo, hi):
             return ('ok', t)
         return ('err',)
     if any(isinstance(c, IntRender) for c in items):
+        # [sign] 0* <rendered non-negative integer>: a zero-padded exponent
+        body = list(items)
+        sgn = 1
+        if body and isinstance(body[0], int) and body[0] in (43, 45):
+            sgn = -1 if body[0] == 45 else 1
+            body = body[1:]
+        while len(body) > 1 and isinstance(body[0], int) and body[0] == 48:
+            body = body[1:]
+        if len(body) == 1 and isinstance(body[0], IntRender) and not body[0].plus:
+            t = body[0].t
+            if not m.branch_bool(t >= 0):
+                return ('err',)                 # "00-5" is not an integer
+            val = sgn * t
+            ok = z3.And(val >= lo, val <= hi) if is_sym(val) else (lo <= val <= hi)
+            return ('ok', val) if m.branch_bool(ok) else ('err',)
         raise Unsupported('mixed integer rendering')
     if not items:
         return ('err',)
